@@ -249,7 +249,9 @@ func (r *rig) settle() {
 			if !r.conn[k] {
 				continue
 			}
-			hs := r.answers(k+1, r.nodes[k].LastLocator())
+			loc := r.nodes[k].LastLocator()
+			hs := r.answers(k+1, loc)
+			r.reqLine(k+1, loc, hs)
 			if len(hs) == 0 {
 				continue // an empty headers message: nothing for the handler to do
 			}
@@ -335,6 +337,9 @@ func (r *rig) inv(k int) {
 // block manager's present (injected) time
 func (r *rig) servesValidNow(k int) bool {
 	limit := r.clk.AdjustedTime().Add(2 * time.Hour)
+	if t := r.nodes[k-1].Tip(); t != nil && !r.checkpointsOK(t) {
+		return false // a chain that misses a hard-coded checkpoint is not a valid chain
+	}
 	for b := r.nodes[k-1].Tip(); b != nil && b.Height > 0; b = b.Parent {
 		if !b.Valid || b.Msg.Header.Timestamp.After(limit) {
 			return false
